@@ -45,6 +45,8 @@ def main():
                     },
                 }
             )
+            lines = [l.strip(" #*-") for l in notes.splitlines() if l.strip(" #*-")]
+            meta["summary"] = " ".join(lines[:3])[:300]
             meta.setdefault("checks_run", {})
             json.dump(meta, open(mp, "w"), indent=1)
             print(f"{tag} m{k}: imported")
